@@ -29,6 +29,8 @@ func C19(c *Ctx) {
 	}
 	c.R.Rule("C19-R6", "E3", "one buffered reader of the subprocess's output per session", 1)
 	c19Reader(c, run)
+	c.R.Rule("C19-R8", "E3", "a step's timeout is armed once per step (it runs from the start of the step)", 1)
+	c19TimeoutArmedOnce(c, "C19-R8", run)
 	// the function that matches output lines
 	var F *ssa.Function
 	var matchCall *ssa.Call
@@ -528,6 +530,8 @@ func C09(c *Ctx) {
 	c.R.Rule("C09-R4", "E5", "a bindings map never contains itself", 2)
 	c.R.Rule("C09-R6", "E6", "state readers decode numbers the way the matcher knows them (float64)", 1)
 	c09Readers(c)
+	c.shareRule("C16", "C16-R3", "C09-R8", "what mcrew writes out for a machine is that machine's state: one transaction, every record, each record's bytes its own")
+	c.shareRule("C15", "C15-R8", "C09-R9", "what the stdio host writes out is everything it read plus every reported change (its store starts from the state file)")
 	c.R.Rule("C09-R7", "E1", "a machine's state is its node and bindings: no script runtime outlives an execution", 3)
 	if ea, ex := c.ecmaAnalysis(); ea != nil {
 		c.runtimeFresh("C09-R7", ea, ex)
